@@ -347,6 +347,12 @@ fn gen_history(tape: Vec<u8>) -> HistCase {
 
 fn judge_history(c: &HistCase, cls: &mut Classifier) -> Verdict {
     let mut scratch = Classifier::default();
+    // prelude (result ignored): replaces whatever a single-slot memo holds from an earlier case on this thread
+    let _ = catch(|| {
+        serde_json::from_str::<TypedData>(r#"{"types":{"EIP712Domain":[{"name":"name","type":"string"}],"Prelude":[{"name":"p","type":"uint8"}]},"primaryType":"Prelude","domain":{"name":"prelude"},"message":{"p":1}}"#)
+            .map(|t| t.signing_message().0)
+            .is_ok()
+    });
     for (i, s) in c.steps.iter().enumerate() {
         judge(s, &mut scratch).map_err(|mut e| {
             e.note = format!("step {i} ({}) of the history {:?}, hashed one after the other on one thread: {}", c.changes.get(i).map(String::as_str).unwrap_or("?"), c.changes, e.note);
